@@ -501,4 +501,287 @@ class C10(Oracle):
         return out
 
 
-ORACLES = {'C18': C18, 'C08': C08, 'C09': C09, 'C10': C10}
+
+class C11(Oracle):
+    prop = 'C11'
+
+    def gen(self, rng):
+        g3 = gen_step_cases(rng, atoms_choices=[[3]], obstacles=True)
+        g6 = gen_step_cases(rng, atoms_choices=[[6]], telepods=True)
+        while True:
+            c = next(g3)
+            c['answers'] = [rng.randrange(4) for _ in range(40)]
+            yield c
+            yield next(g6)
+
+    def from_line(self, line):
+        return step_case_from_line(line)
+
+    def check(self, c):
+        from gym_gridverse.grid_object import Floor, MovingObstacle, Telepod
+        from harness.codec import enc_obj
+        from harness.recrng import ScriptRng
+        from gym_gridverse.envs import transition_functions as trf
+
+        out = []
+        if c['atoms'] == [3]:
+            s0, a, s1, err, rng = run_step(c)
+            if err is not None:
+                return [V('move_obstacles/raises', f'{type(err).__name__} on {c["state"]}')]
+            g0, g1 = s0.grid, s1.grid
+            h, w = g0.shape.height, g0.shape.width
+            obs0 = [p for p in g0.area.positions() if isinstance(g0[p], MovingObstacle)]
+            obs1 = [p for p in g1.area.positions() if isinstance(g1[p], MovingObstacle)]
+            if len(obs0) != len(obs1):
+                out.append(V('move_obstacles/obstacle-count-changed', f'{c["state"]}: {len(obs0)} -> {len(obs1)}'))
+            for p in g0.area.positions():
+                o0, o1 = g0[p], g1[p]
+                if not isinstance(o0, (Floor, MovingObstacle)) and enc_obj(o0) != enc_obj(o1):
+                    out.append(V('move_obstacles/non-floor-cell-changed', f'{c["state"]} at {p}'))
+                    break
+                if isinstance(o0, (Floor, MovingObstacle)) and not isinstance(o1, (Floor, MovingObstacle)):
+                    out.append(V('move_obstacles/non-floor-cell-changed', f'{c["state"]} at {p}'))
+                    break
+            # reference sweep (the property statement, literally)
+            cur = [[enc_obj(g0[y, x]) for x in range(w)] for y in range(h)]
+            answers = list(c['answers'])
+            for p in obs0:
+                nb = [(p.y - 1, p.x), (p.y, p.x + 1), (p.y + 1, p.x), (p.y, p.x - 1)]
+                free = [q for q in nb if 0 <= q[0] < h and 0 <= q[1] < w and cur[q[0]][q[1]] == 'F']
+                if not free:
+                    continue
+                k = (answers.pop(0) if answers else 0) % len(free)
+                q = free[k]
+                cur[p.y][p.x], cur[q[0]][q[1]] = cur[q[0]][q[1]], cur[p.y][p.x]
+            got = [[enc_obj(g1[y, x]) for x in range(w)] for y in range(h)]
+            if cur != got:
+                out.append(V('move_obstacles/deviates-from-sweep-rule', f'{c["state"]} answers={c["answers"][:len(obs0)]}'))
+            if enc_obj(s1.agent.grid_object) != enc_obj(s0.agent.grid_object) or s1.agent.transform != s0.agent.transform:
+                out.append(V('move_obstacles/touches-agent', c['state']))
+            # every free neighbour of a single obstacle is attainable
+            if len(obs0) == 1:
+                p = obs0[0]
+                nb = [(p.y - 1, p.x), (p.y, p.x + 1), (p.y + 1, p.x), (p.y, p.x - 1)]
+                free = [q for q in nb if 0 <= q[0] < h and 0 <= q[1] < w and isinstance(g0[q], Floor)]
+                reached = set()
+                for k in range(len(free)):
+                    s = fast_copy(s0)
+                    trf.move_obstacles(s, a, rng=ScriptRng([k]))
+                    reached |= {q.yx for q in s.grid.area.positions() if isinstance(s.grid[q], MovingObstacle)}
+                if free and reached != set(free):
+                    out.append(V('move_obstacles/free-neighbour-unreachable', f'{c["state"]}'))
+        elif c['atoms'] == [6]:
+            s0 = state_from_str(c['state'])
+            if not in_grid(s0.grid, s0.agent.position):
+                return out
+            s0, a, s1, err, rng = run_step(c)
+            here = s0.grid[s0.agent.position]
+            partners = []
+            if isinstance(here, Telepod):
+                partners = [p for p in s0.grid.area.positions() if p != s0.agent.position and isinstance(s0.grid[p], Telepod) and s0.grid[p].color == here.color]
+            if err is not None:
+                sig = 'teleport/unpaired-telepod-raises' if isinstance(here, Telepod) and not partners else 'teleport/raises'
+                return [V(sig, f'{type(err).__name__} on {c["state"]}')]
+            if enc_state(s1)[: len(enc_state(s1)) - 0].split()[:-4] != enc_state(s0).split()[:-4]:
+                out.append(V('teleport/changes-grid', c['state']))
+            if s1.agent.orientation != s0.agent.orientation or enc_obj(s1.agent.grid_object) != enc_obj(s0.agent.grid_object):
+                out.append(V('teleport/changes-heading-or-item', c['state']))
+            if partners:
+                if s1.agent.position not in partners:
+                    out.append(V('teleport/not-sent-to-partner', f'{c["state"]} -> {s1.agent.position}'))
+                reached = set()
+                for k in range(len(partners)):
+                    s = fast_copy(s0)
+                    trf.teleport(s, a, rng=ScriptRng([k]))
+                    reached.add(s.agent.position)
+                if reached != set(partners):
+                    out.append(V('teleport/partner-unreachable', c['state']))
+            elif s1.agent.position != s0.agent.position:
+                out.append(V('teleport/displaces-without-partner', f'{c["state"]} -> {s1.agent.position}'))
+        return out
+
+
+
+REW_ARGC = {'ov': 3, 'lv': 1, 're': 2, 'bo': 1, 'pd': 3, 'gc': 4, 'sp': 3, 'bw': 1, 'ad': 2, 'pk': 3, 'rm': 2}
+
+
+def triple_case_from_line(line):
+    t = line.split()
+    if not t or t[0] not in ('reward', 'term', 'rewsum'):
+        return None
+    try:
+        if t[0] == 'reward':
+            i = 2 + REW_ARGC[t[1]]
+        elif t[0] == 'rewsum':
+            n = int(t[1])
+            i = 2
+            for _ in range(n):
+                i += 1 + REW_ARGC[t[i]]
+        else:
+            # termination spec: scan for the first position that decodes as a state
+            i = 1
+            while i < len(t):
+                try:
+                    dec_state(t, i)
+                    if t[i].isdigit() and t[i + 1].isdigit():
+                        break
+                except Exception:
+                    pass
+                i += 1
+        s, j = dec_state(t, i)
+        a = int(t[j])
+        s2, k = dec_state(t, j + 1)
+        return {'kind': 'triple', 's': ' '.join(t[i:j]), 'a': a, 's2': ' '.join(t[j + 1 : k])}
+    except Exception:
+        return None
+
+
+class C12(Oracle):
+    prop = 'C12'
+
+    def gen(self, rng):
+        from harness import corr_core
+
+        k = 0
+        while True:
+            k += 1
+            s, a, s2 = corr_core._reward_triples(rng, k)
+            corr_core._uniquify(rng, s, s2)
+            yield {'kind': 'triple', 's': enc_state(s), 'a': a.value, 's2': enc_state(s2)}
+
+    def from_line(self, line):
+        return triple_case_from_line(line)
+
+    def check(self, c):
+        from gym_gridverse.envs import reward_functions as rf
+        from gym_gridverse.envs import terminating_functions as tf
+        from gym_gridverse.grid_object import Beacon, Door, Exit, Key, MovingObstacle, Wall
+        from gym_gridverse.envs.utils import _move_action_to_orientation as mv
+
+        out = []
+        s, s2 = state_from_str(c['s']), state_from_str(c['s2'])
+        a = ACTIONS[c['a']]
+        if not in_grid(s2.grid, s2.agent.position) or not in_grid(s.grid, s.agent.position):
+            return out
+        if s.grid.shape != s2.grid.shape:
+            return out
+
+        def call(f, **kw):
+            try:
+                return f(s, a, s2, **kw), None
+            except Exception as e:  # noqa
+                return None, e
+
+        cell2 = s2.grid[s2.agent.position]
+        on_exit = isinstance(cell2, Exit)
+        # reach_exit reward/termination and their agreement
+        r, e = call(rf.reach_exit, reward_on=5.0, reward_off=-0.25)
+        t, e2 = call(tf.reach_exit)
+        if e or e2:
+            out.append(V('reach_exit/raises', f'{c}'))
+        else:
+            if (r == 5.0) != on_exit or (r != 5.0 and r != -0.25):
+                out.append(V('reach_exit/reward-not-iff-on-exit', f'{c} r={r}'))
+            if t is not on_exit:
+                out.append(V('reach_exit/termination-not-iff-on-exit', f'{c} t={t}'))
+            if (r == 5.0) != (t is True):
+                out.append(V('reach_exit/reward-termination-disagree', f'{c}'))
+        # bump obstacle
+        r, e = call(rf.bump_moving_obstacle, reward=-3.0)
+        t, e2 = call(tf.bump_moving_obstacle)
+        on_obs = isinstance(cell2, MovingObstacle)
+        if e or e2 or (r == -3.0) != on_obs or (not on_obs and r != 0.0) or t is not on_obs:
+            out.append(V('bump_moving_obstacle/wrong', f'{c} r={r} t={t}'))
+        # bump wall
+        if a in mv:
+            tgt = s.agent.position + (s.agent.orientation * mv[a]) * Position(-1, 0)
+        else:
+            tgt = s.agent.position
+        hit = in_grid(s.grid, tgt) and isinstance(s.grid[tgt], Wall)
+        r, e = call(rf.bump_into_wall, reward=-2.0)
+        t, e2 = call(tf.bump_into_wall)
+        if e or e2 or (r == -2.0) != hit or (not hit and r != 0.0) or bool(t) is not hit or type(t) is not bool:
+            out.append(V('bump_into_wall/wrong', f'{c} r={r} t={t!r}'))
+        # distance shaping (needs a unique Exit)
+        ex1 = [p for p in s.grid.area.positions() if isinstance(s.grid[p], Exit)]
+        ex2 = [p for p in s2.grid.area.positions() if isinstance(s2.grid[p], Exit)]
+        if len(ex1) == 1 and len(ex2) == 1:
+            for name, dfn in (('manhattan', Position.manhattan_distance), ('euclidean', Position.euclidean_distance)):
+                d1, d2 = dfn(s.agent.position, ex1[0]), dfn(s2.agent.position, ex2[0])
+                r, e = call(rf.getting_closer, distance_function=dfn, object_type=Exit, reward_closer=2.0, reward_further=-7.0)
+                exp = 2.0 if d2 < d1 else -7.0 if d2 > d1 else 0.0
+                if e or r != exp:
+                    out.append(V('getting_closer/wrong-sign', f'{c} {name} r={r} exp={exp}'))
+                r, e = call(rf.proportional_to_distance, distance_function=dfn, object_type=Exit, reward_per_unit_distance=-1.5)
+                if e or r != -1.5 * d2:
+                    out.append(V('proportional_to_distance/wrong', f'{c} {name} r={r}'))
+            # shortest path variant against an independent BFS
+            def bfs(st, src):
+                from collections import deque
+
+                h, w = st.grid.shape.height, st.grid.shape.width
+                dist = {src.yx: 0}
+                dq = deque([src.yx])
+                while dq:
+                    y, x = dq.popleft()
+                    for dy, dx in ((-1, 0), (1, 0), (0, -1), (0, 1)):
+                        q = (y + dy, x + dx)
+                        if 0 <= q[0] < h and 0 <= q[1] < w and q not in dist and not st.grid[q].blocks_movement:
+                            dist[q] = dist[(y, x)] + 1
+                            dq.append(q)
+                return dist
+
+            d1 = bfs(s, ex1[0]).get(s.agent.position.yx, math.inf)
+            d2 = bfs(s2, ex2[0]).get(s2.agent.position.yx, math.inf)
+            r, e = call(rf.getting_closer_shortest_path, object_type=Exit, reward_closer=2.0, reward_further=-7.0)
+            exp = 2.0 if d2 < d1 else -7.0 if d2 > d1 else 0.0
+            if e or r != exp:
+                out.append(V('getting_closer_shortest_path/wrong-sign', f'{c} r={r} exp={exp} d={d1}->{d2}'))
+        # pick/drop
+        h1, h2 = isinstance(s.agent.grid_object, Key), isinstance(s2.agent.grid_object, Key)
+        r, e = call(rf.pickndrop, object_type=Key, reward_pick=4.0, reward_drop=-4.5)
+        exp = 4.0 if (not h1 and h2) else -4.5 if (h1 and not h2) else 0.0
+        if e or r != exp:
+            out.append(V('reward-pickndrop/wrong', f'{c} r={r}'))
+        # door reward
+        front = s.agent.front()
+        r, e = call(rf.actuate_door, reward_open=3.0, reward_close=-3.5)
+        exp = 0.0
+        if a.name == 'ACTUATE' and in_grid(s.grid, front):
+            d1, d2 = s.grid[front], s2.grid[front]
+            if isinstance(d1, Door) and isinstance(d2, Door):
+                exp = 3.0 if (not d1.is_open and d2.is_open) else -3.5 if (d1.is_open and not d2.is_open) else 0.0
+        if e is not None:
+            sig = 'reward-actuate_door/front-outside-grid' if not in_grid(s.grid, front) else 'reward-actuate_door/raises'
+            out.append(V(sig, f'{c} {type(e).__name__}'))
+        elif r != exp:
+            sig = 'reward-actuate_door/front-outside-grid' if not in_grid(s.grid, front) else 'reward-actuate_door/wrong'
+            out.append(V(sig, f'{c} r={r} exp={exp}'))
+        # memory
+        beacons = [s2.grid[p] for p in s2.grid.area.positions() if isinstance(s2.grid[p], Beacon)]
+        if beacons:
+            r, e = call(rf.reach_exit_memory, reward_good=6.0, reward_bad=-6.5)
+            exp = (6.0 if cell2.color == beacons[0].color else -6.5) if on_exit else 0.0
+            if e or r != exp:
+                out.append(V('reach_exit_memory/wrong', f'{c} r={r}'))
+        r, e = call(rf.living_reward, reward=-0.75)
+        if e or r != -0.75:
+            out.append(V('living_reward/wrong', f'{c}'))
+        # composites
+        parts = [rf.factory('reach_exit', reward_on=5.0, reward_off=0.0), rf.factory('living_reward', reward=-0.05), rf.factory('bump_into_wall', reward=-0.2), rf.factory('pickndrop', object_type=Key, reward_pick=1.0, reward_drop=-1.0)]
+        tot, e = call(rf.factory('reduce_sum', reward_functions=parts))
+        vals = [f(s, a, s2) for f in parts]
+        if e or tot != sum(vals):
+            out.append(V('reduce_sum/not-sum-of-parts', f'{c} {tot} vs {vals}'))
+        tparts = [tf.factory('reach_exit'), tf.factory('bump_into_wall'), tf.factory('bump_moving_obstacle')]
+        tv = [f(s, a, s2) for f in tparts]
+        ta, e = call(tf.factory('reduce_any', terminating_functions=tparts))
+        tl, e2 = call(tf.factory('reduce_all', terminating_functions=tparts))
+        if e or e2 or ta is not any(tv) or tl is not all(tv):
+            out.append(V('reduce_any_all/wrong', f'{c} {ta} {tl} {tv}'))
+        if (vals[0] == 5.0) != (tv[0] is True):
+            out.append(V('reach_exit/reward-termination-disagree', f'{c}'))
+        return out
+
+
+ORACLES = {'C18': C18, 'C08': C08, 'C09': C09, 'C10': C10, 'C11': C11, 'C12': C12}
